@@ -37,6 +37,8 @@ class _Hole(SerializableType):
         return hash((type(self).__name__, repr(self.v)))
     def __repr__(self):
         return f"{type(self).__name__}({self.v!r})"
+    def __bool__(self):
+        return self.v != 0  # user classes may be falsy: H(0) is
     def _serialize(self):
         return {"hole": type(self).__name__, "v": self.v}
     @classmethod
@@ -205,7 +207,7 @@ def make_dec_view(cls, dialect, hooks=None, staged=False):
     """view factory for g1.verify_from_dict: conv_f = REF_DEC(annotation)"""
     import typing_extensions
 
-    hints = typing_extensions.get_type_hints(cls, include_extras=True)
+    hints = ref.resolved_hints(cls)
     genf = _genf(dialect)
 
     def factory(eng, hyps):
@@ -252,7 +254,7 @@ def make_dec_view(cls, dialect, hooks=None, staged=False):
 def make_enc_view(cls, dialect):
     import typing_extensions
 
-    hints = typing_extensions.get_type_hints(cls, include_extras=True)
+    hints = ref.resolved_hints(cls)
     genf = _genf(dialect)
 
     def factory(eng, hyps, ex):
@@ -379,7 +381,7 @@ def find_witness(cls, what, dialect="default", src=None):
     from . import samples
 
     try:
-        hints = typing_extensions.get_type_hints(cls, include_extras=True)
+        hints = ref.resolved_hints(cls)
         bases = samples.dataclass_instances(cls)
     except Exception:
         return None
@@ -453,7 +455,7 @@ def find_witness(cls, what, dialect="default", src=None):
     return None
 
 
-def _ob(oid, res, rec, what, cls, dialect="default", src=None):
+def _ob(oid, res, rec, what, cls, dialect=None, src=None):
     bad = [v for v in res["verdicts"] if v.status != "proved"]
     ob = dict(id=oid, unit=f"C.{'from' if what == 'REF_DEC' else 'to'}_dict", paths=res["paths"], queries=res["queries"],
               solver_s=round(res["solver_s"], 4), backend="z3", sample=rec.text[:1200])
@@ -465,7 +467,7 @@ def _ob(oid, res, rec, what, cls, dialect="default", src=None):
         ob["detail"] = f"{len(bad)}/{len(res['verdicts'])} paths disagree with {what}; first: {v0.path.kind} {v0.path.value!r} {v0.detail}"[:1200]
         ob["solver_output"] = [f"{v.name}: {v.status} {v.detail}" for v in bad][:20]
         ob["witness"] = None
-        if what in ("REF_ENC", "REF_DEC") and (isinstance(dialect, str) or callable(dialect)):
+        if what in ("REF_ENC", "REF_DEC") and dialect is not None:  # the caller names the reference generator the proof used
             try:
                 ob["witness"] = find_witness(cls, what, dialect, src)
             except Exception as e:  # noqa
